@@ -1,7 +1,9 @@
 // c04corr — correspondence + monitor harness for property C04 ("a reported success identifies exactly where and
 // what was written").  Two families of cases, every random choice derived from -seed:
-//   build : a real produceSet (add, buildRequest) + real encoder + real decoder + handleSuccess, in-package;
-//   e2e   : a real AsyncProducer / SyncProducer against scripted mock brokers that keep per-partition logs.
+//
+//	build : a real produceSet (add, buildRequest) + real encoder + real decoder + handleSuccess, in-package;
+//	e2e   : a real AsyncProducer / SyncProducer against scripted mock brokers that keep per-partition logs.
+//
 // Writes cases_build_NNN.v / cases_e2e_NNN.v (+ .jsonl sidecars) for coq/C04/Corr.v.
 package main
 
